@@ -225,7 +225,8 @@ BINARY_PRED = ["is_same", "is_convertible", "is_nothrow_convertible", "is_assign
                "is_swappable_with", "is_nothrow_swappable_with"]
 BINARY_TRANS = ["common_type", "common_reference"]
 CLASS_PAIRS = ["z::Pod", "z::Derived", "z::Derived2", "z::PrivDerived", "z::VDerived", "z::Empty", "z::Abstract",
-               "z::Poly", "z::U", "int", "z::Pod const", "z::Derived volatile", "void", "z::Pod&", "z::Pod*"]
+               "z::Poly", "z::U", "int", "z::Pod const", "z::Derived volatile", "void", "z::Pod&", "z::Pod*", "z::Derived const",
+               "z::Pod const volatile", "z::Derived2 const volatile"]
 
 CONCEPT_UNARY = ["integral", "signed_integral", "unsigned_integral", "floating_point", "destructible",
                  "default_initializable", "move_constructible", "copy_constructible", "movable", "copyable",
@@ -426,6 +427,11 @@ def generate(quick):
         for a in CLASS_PAIRS:
             for b in CLASS_PAIRS:
                 tu.add("static_assert(etl::is_base_of_v<%s, %s> == std::is_base_of_v<%s, %s>);" % (a, b, a, b), "is_base_of_v<%s, %s>" % (a, b))
+    if "derived_from" in concepts:
+        # the class lattice with cv-qualified members: derived_from ignores cv-qualification of both operands
+        for a in CLASS_PAIRS:
+            for b in CLASS_PAIRS:
+                tu.add("static_assert(etl::derived_from<%s, %s> == std::derived_from<%s, %s>);" % (a, b, a, b), "concept derived_from<%s, %s> (class lattice)" % (a, b))
     for n in ("common_type", "common_reference"):
         if n in traits:
             for args in ("int", "int, long, double", "int, z::Pod", "z::Derived*, z::Pod*, void*", "", "int&, int const&", "z::E, int", "char, short, unsigned"):
